@@ -241,9 +241,6 @@ def main():
                 fault = "variant %s: simulator exited with %d" % (variant, r.returncode)
                 break
 
-    if det_fault and not violation and not fault:
-        fault = det_fault
-
     # ---- C19 side check on the shipped objects (not the deciding step; the statement's first sentence)
     side = None
     if prop == "C19" and not violation and not fault and not NO_STATIC:
@@ -255,6 +252,9 @@ def main():
             print("VIOLATION property=C19 replay=%s" % path)
             print("  class=%s the objects built from the working tree contain writable data symbols %s / allocator imports %s" % ("writable-static-data" if syms else "heap-import", syms[:6], heap))
             violation = {"class": "writable-static-data" if syms else "heap-import", "replay": path}
+
+    if det_fault and not violation and not fault:
+        fault = det_fault
 
     # ---- evidence
     wall = time.time() - t0
